@@ -48,7 +48,10 @@ def reply_for(step: Dict[str, Any], req: Dict[str, Any]) -> List[Dict[str, Any]]
     for i in range(step.get("notifs", 0)):
         msgs.append({"jsonrpc": "2.0", "method": "notifications/message", "params": {"level": "info", "data": {"i": i, "t": step.get("text", "")}}})
     rid = req.get("id")
-    if step["reply"] == "error":
+    if step["reply"] == "error-null-id":
+        # the "could not tell which request" class of replies (parse error / invalid request): id is null
+        msgs.append({"jsonrpc": "2.0", "id": None, "error": {"code": step["code"], "message": "srv " + step.get("text", "")}})
+    elif step["reply"] == "error":
         msgs.append({"jsonrpc": "2.0", "id": rid, "error": {"code": step["code"], "message": "srv " + step.get("text", "")}})
     else:
         res = valid_result_for(step["op"]) or {}
@@ -56,6 +59,25 @@ def reply_for(step: Dict[str, Any], req: Dict[str, Any]) -> List[Dict[str, Any]]
         res["x-extra"] = step.get("payload", {})
         msgs.append({"jsonrpc": "2.0", "id": rid, "result": res})
     return msgs
+
+
+def segments(data: bytes, cuts: List[int]) -> List[bytes]:
+    """data cut at the given offsets (taken modulo its length): how the bytes happen to arrive"""
+    if not data:
+        return []
+    pts = sorted({c % len(data) for c in cuts} - {0})
+    out, last = [], 0
+    for p_ in pts:
+        out.append(data[last:p_])
+        last = p_
+    out.append(data[last:])
+    return out
+
+
+async def _agen(pieces: List[bytes]):
+    for p_ in pieces:
+        yield p_
+        await asyncio.sleep(0)
 
 
 def run_carrier(carrier: str, steps: List[Dict[str, Any]], client_fn: Callable) -> Any:
@@ -69,11 +91,14 @@ def run_carrier(carrier: str, steps: List[Dict[str, Any]], client_fn: Callable) 
     counter = {"n": 0}
     result: Dict[str, Any] = {}
 
+    cur = {"cuts": []}
+
     def next_reply(req: Dict[str, Any]) -> Optional[List[Dict[str, Any]]]:
         if not (isinstance(req, dict) and "method" in req and req.get("id") is not None):
             return None  # client notification (e.g. notifications/initialized)
         i = counter["n"]
         counter["n"] += 1
+        cur["cuts"] = steps[i].get("cuts", []) if i < len(steps) else []
         if i >= len(steps):
             return [{"jsonrpc": "2.0", "id": req["id"], "result": {}}]
         return reply_for(steps[i], req)
@@ -92,8 +117,9 @@ def run_carrier(carrier: str, steps: List[Dict[str, Any]], client_fn: Callable) 
                         while b"\n" in buf["b"]:
                             line, buf["b"] = buf["b"].split(b"\n", 1)
                             rep = next_reply(json.loads(line))
-                            for m in rep or []:
-                                proc.stdout.feed((json.dumps(m, ensure_ascii=False) + "\n").encode("utf-8"))
+                            blob = b"".join((json.dumps(m, ensure_ascii=False) + "\n").encode("utf-8") for m in rep or [])
+                            for piece in segments(blob, cur["cuts"]):  # pipe reads are not aligned to lines
+                                proc.stdout.feed(piece)
 
                     proc.on_stdin = on_stdin
                     r, w = client.get_streams()
@@ -104,9 +130,9 @@ def run_carrier(carrier: str, steps: List[Dict[str, Any]], client_fn: Callable) 
                 if rep is None:
                     return httpx.Response(202)
                 if carrier == "http-json":
-                    return httpx.Response(200, headers={"content-type": "application/json"}, content=json.dumps(rep[-1], ensure_ascii=False).encode("utf-8"))
+                    return httpx.Response(200, headers={"content-type": "application/json"}, content=_agen(segments(json.dumps(rep[-1], ensure_ascii=False).encode("utf-8"), cur["cuts"])))
                 body = "".join("event: message\ndata: " + json.dumps(m, ensure_ascii=False) + "\n\n" for m in rep)
-                return httpx.Response(200, headers={"content-type": "text/event-stream"}, content=body.encode("utf-8"))
+                return httpx.Response(200, headers={"content-type": "text/event-stream"}, content=_agen(segments(body.encode("utf-8"), cur["cuts"])))
 
             with install("http", handler):
                 async with http_client(StreamableHTTPParameters(url="http://test.invalid/mcp", timeout=5.0)) as (r, w):
@@ -122,9 +148,12 @@ def run_carrier(carrier: str, steps: List[Dict[str, Any]], client_fn: Callable) 
                 rep = next_reply(json.loads(request.content))
                 mode = steps[i_before].get("sse_order", "202-first") if (rep is not None and i_before < len(steps)) else "202-first"
 
+                cuts_ = list(cur["cuts"])
+
                 def emit():
-                    for m in rep or []:
-                        es.feed(("event: message\ndata: " + json.dumps(m, ensure_ascii=False) + "\n\n").encode("utf-8"))
+                    blob = b"".join(("event: message\ndata: " + json.dumps(m, ensure_ascii=False) + "\n\n").encode("utf-8") for m in rep or [])
+                    for piece in segments(blob, cuts_):
+                        es.feed(piece)
 
                 if mode == "event-first":
                     # the answer travels on the event stream before the POST is acknowledged
@@ -154,9 +183,13 @@ def check(case: Dict[str, Any]) -> Outcome:
     steps: List[Dict[str, Any]] = case["steps"]
     mode = case.get("pass", "A")
     carriers = [c for c in CARRIERS if not (c == "http-json" and any(s.get("notifs", 0) for s in steps))]
+    if any(s["reply"] == "error-null-id" for s in steps):
+        # a request that is never answered is not expressible on the legacy SSE carrier: by design (C12) it answers
+        # such a request itself with a synthesised timeout error and holds later requests back meanwhile
+        carriers = [c for c in carriers if c != "sse"]
     nonascii = any(any(ord(ch) > 0x7E for ch in json.dumps([s.get("text", ""), s.get("payload", {})], ensure_ascii=False)) for s in steps)
-    out.nontrivial = any(s.get("notifs", 0) for s in steps) or nonascii or any(s["reply"] == "error" for s in steps) or any(isinstance(s.get("id"), int) for s in steps)
-    out.classes = (f"pass:{mode}", f"steps:{len(steps)}", f"carriers:{len(carriers)}") + (("notifs",) if any(s.get("notifs", 0) for s in steps) else ()) + (("errors",) if any(s["reply"] == "error" for s in steps) else ())
+    out.nontrivial = any(s.get("notifs", 0) for s in steps) or nonascii or any(s["reply"] != "result" for s in steps) or any(s.get("cuts") for s in steps) or any(isinstance(s.get("id"), int) for s in steps)
+    out.classes = (f"pass:{mode}", f"steps:{len(steps)}", f"carriers:{len(carriers)}") + (("notifs",) if any(s.get("notifs", 0) for s in steps) else ()) + (("errors",) if any(s["reply"] == "error" for s in steps) else ()) + (("null-id-error",) if any(s["reply"] == "error-null-id" for s in steps) else ()) + (("segmented",) if any(s.get("cuts") for s in steps) else ()) + (("falsy-id",) if any(s.get("id") in (0, "") and not isinstance(s.get("id"), bool) for s in steps) else ())
 
     if mode == "A":
         reqs = [{"jsonrpc": "2.0", "id": s["id"], "method": s["op"], "params": {"p": s.get("text", "")}} for s in steps]
@@ -253,7 +286,13 @@ def check(case: Dict[str, Any]) -> Outcome:
         got = outcomes[c]
         for i, s in enumerate(steps):
             o = got[i] if got and i < len(got) else None
-            if s["reply"] == "error":
+            if s["reply"] == "error-null-id":
+                # a reply that names no request answers none: the helper runs into its timeout
+                ok = (o == ("return", False)) if s["op"] == "ping" else (o is not None and o[0] == "raise" and o[1] == "TimeoutError")
+                if not ok:
+                    out.fail(f"helper-outcome-differs-from-script:null-id-error:{c}", f"step {i} {s['op']} code {s['code']}: {o!r}")
+                    return out
+            elif s["reply"] == "error":
                 if s["op"] == "ping":
                     ok = o == ("return", False)
                 else:
@@ -291,14 +330,21 @@ def cases(draw, mode: str):
     steps = []
     for k in range(n):
         s: Dict[str, Any] = {"op": draw(st.sampled_from(sorted(OPS))), "notifs": draw(st.sampled_from([0, 0, 1, 2, 3])), "text": draw(_text), "payload": draw(_payload)}
-        if draw(st.integers(0, 3)) == 0:
+        r_ = draw(st.integers(0, 11))
+        if r_ <= 2:
             s["reply"] = "error"
             s["code"] = draw(st.sampled_from(CODES))
+        elif r_ == 3:
+            s["reply"] = "error-null-id"
+            s["code"] = draw(st.sampled_from([-32700, -32600]))
         else:
             s["reply"] = "result"
+        if draw(st.integers(0, 2)) == 0:
+            # where the carrier happens to cut the server's bytes (pipe reads, TCP segments)
+            s["cuts"] = draw(st.lists(st.integers(1, 600), min_size=1, max_size=4))
         s["sse_order"] = draw(st.sampled_from(["202-first", "event-first"]))
         if mode == "A":
-            s["id"] = draw(st.one_of(st.sampled_from([f"r{k}", f"{100 + k}", f"é{k}"]), st.integers(1, 2**53).map(lambda v, k=k: v * 8 + k)))
+            s["id"] = draw(st.one_of(st.sampled_from([f"r{k}", f"{100 + k}", f"é{k}", 0, ""]), st.integers(1, 2**53).map(lambda v, k=k: v * 8 + k)))
         steps.append(s)
     if mode == "A":
         # ids must be unique within a conversation (also as strings)
